@@ -149,7 +149,11 @@ def cases_for_expressions(name, exprs, options=None):
         pts = np.asarray(pts)
         args = sorted(ufl.algorithms.extract_arguments(e), key=lambda a: a.number())
         adims = [_el_dim(a.ufl_function_space().ufl_element()) for a in args]
-        coefs = ufl.algorithms.extract_coefficients(e)
+        # contract: w holds the coefficients that survive UFL's own differentiation (a coefficient that vanishes,
+        # e.g. in derivative(q + u**2, u, du), is not packed), in UFL's count order; constants: all of the original
+        from ufl.algorithms.apply_algebra_lowering import apply_algebra_lowering
+        from ufl.algorithms.apply_derivatives import apply_derivatives
+        coefs = ufl.algorithms.extract_coefficients(apply_derivatives(apply_algebra_lowering(e)))
         cdims = [_el_dim(c.ufl_function_space().ufl_element()) for c in coefs]
         consts = ufl.algorithms.analysis.extract_constants(e)
         ksizes = [_prod(c.ufl_shape) for c in consts]
